@@ -162,6 +162,11 @@ class Gen:
         if classes and self.p(0.4):
             k = self.pick(classes)
             c['classes'].append((self.perturb(k) or k) if self.p(0.15 * cfg.miss) else k)
+            if self.p(0.15):
+                # the same class written twice in one compound (`.a.a`, the specificity idiom) means what `.a` means
+                c['classes'].append(c['classes'][-1])
+            elif len(classes) > 1 and self.p(0.3):
+                c['classes'].append(self.pick(classes))
         for k, v in list(el.attrs.items()):
             if R.ascii_lower(str(k)) in ('id', 'class') and self.p(0.7):
                 continue
